@@ -44,7 +44,10 @@ def main():
                 bad = {p: rc for p, (rc, _) in res.items() if rc}
                 out['benign'][d] = bad
                 for p, rc in sorted(bad.items()):
-                    l = res[p][1][0][:240] if res[p][1] else ''
+                    ls = res[p][1]
+                    if rc == 1:
+                        ls = [x for x in ls if 'expected=' in x] or ls
+                    l = ls[0][:240] if ls else ''
                     print(f"{'ALARM ' if rc == 1 else 'refuse'} benign/{d} {p} {l}")
     s = out['seeded']
     if s:
